@@ -91,14 +91,30 @@ fn needles(secret: &str) -> Vec<(String, String)> {
         ("hex-upper".into(), hex::encode_upper(secret.as_bytes())),
         ("percent-encoded".into(), aws_uri_encode(secret, true)),
         ("debug-escaped".into(), format!("{secret:?}").trim_matches('"').to_owned()),
-        ("byte-list".into(), format!("{:?}", secret.as_bytes())),
+        // the Debug form of a byte slice / Vec<u8>, without its brackets (the secret may be preceded by other bytes such
+        // as the "AWS4" of the signing key); "-compact": compared with all white space removed from both sides, which
+        // also covers the pretty-printed form (one number per line)
+        ("byte-list".into(), secret.as_bytes().iter().map(u8::to_string).collect::<Vec<_>>().join(", ")),
+        ("byte-list-compact".into(), secret.as_bytes().iter().map(u8::to_string).collect::<Vec<_>>().join(",")),
+        ("hex-byte-list-compact".into(), secret.as_bytes().iter().map(|b| format!("{b:#04x}")).collect::<Vec<_>>().join(",")),
     ]
 }
 
 fn find(hay: &[u8], needles: &[(String, String)]) -> Option<String> {
+    let mut compact: Option<Vec<u8>> = None;
     for (name, n) in needles {
         let nb = n.as_bytes();
-        if nb.len() >= 8 && hay.windows(nb.len()).any(|w| w == nb) {
+        if nb.len() < 8 {
+            continue;
+        }
+        let found = if name.ends_with("-compact") {
+            // cheap pre-test: a list of numbers needs commas
+            let h = compact.get_or_insert_with(|| if hay.contains(&b',') { hay.iter().copied().filter(|b| !b.is_ascii_whitespace()).collect() } else { Vec::new() });
+            h.windows(nb.len()).any(|w| w == nb)
+        } else {
+            hay.windows(nb.len()).any(|w| w == nb)
+        };
+        if found {
             return Some(name.clone());
         }
     }
